@@ -61,6 +61,8 @@ var mcConfigs = []*MCConfig{
 	{Name: "db+web/l1/A0/cold", Tier: "quick", Commit: l1, Ports: 2, NodeSets: [][]Vec{nA, n0}, Initial: -1, Slots: []Slot{{1, gDb}, {2, gWeb}}, Depth: 4, DepthT: 5},
 	{Name: "big+mix/l2/EB", Tier: "quick", Commit: l2, Ports: 3, NodeSets: [][]Vec{nE, nB}, Initial: 0, Slots: []Slot{{1, gBig}, {2, gMix}}, Depth: 4, DepthT: 5},
 	{Name: "sameorder-db+web/l1/E", Tier: "quick", Commit: l1, Ports: 3, NodeSets: [][]Vec{nE}, Initial: 0, Slots: []Slot{{1, gDb}, {1, gWeb}}, Depth: 4, DepthT: 5},
+	// two orders of ONE deployment group (o1 and o101 differ only in the order sequence number), different sizes
+	{Name: "samegroup-db+web/l1/AB", Tier: "quick", Commit: l1, Ports: 2, NodeSets: [][]Vec{nA, nB}, Initial: 0, Slots: []Slot{{1, gDb}, {101, gWeb}}, Lookup: true, Depth: 4, DepthT: 4},
 	{Name: "db/l1/EB/deep", Tier: "quick", Commit: l1, Ports: 2, NodeSets: [][]Vec{nE, nB}, Initial: 0, Slots: []Slot{{1, gDb}}, Depth: 4, DepthT: 5},
 	{Name: "mix/l122/DC/deep", Tier: "quick", Commit: [3]float64{1, 2, 2}, Ports: 2, NodeSets: [][]Vec{nD, nC}, Initial: 0, Slots: []Slot{{1, gMix}}, Depth: 4, DepthT: 6},
 	{Name: "db+web+mix/l1/EA", Tier: "thorough", Commit: l1, Ports: 3, NodeSets: [][]Vec{nE, nA}, Initial: 0, Slots: []Slot{{1, gDb}, {2, gWeb}, {3, gMix}}, Depth: 4, DepthT: 4},
